@@ -161,7 +161,7 @@ func cdcExecCodec(c *cdcCodecCase) []string {
 	}
 	pending, entryDel := src.pendingDeletes()
 	textPending := src.textPending()
-	lines = append(lines, fmt.Sprintf("op flags => pending=%s entrydel=%s textpending=%s", cdcB01(pending), cdcB01(entryDel), cdcB01(textPending)))
+	lines = append(lines, fmt.Sprintf("op flags => pending=%s hnswpending=%s textpending=%s", cdcB01(pending), cdcB01(entryDel), cdcB01(textPending)))
 	// answers of the source before writing
 	for i, q := range c.Queries {
 		lines = append(lines, fmt.Sprintf("op q q%d before => %s", i, src.query(q)))
